@@ -1,0 +1,102 @@
+//go:build verif
+
+package consistenthash
+
+// Contracts for the deductive verifier in /verif (govc); comments only. Properties C13 (never crashes,
+// error only when the ring is empty) and C14 (number of virtual nodes per endpoint).
+//
+//@ pred chInv(c) = c != nil && c.mapValues != nil && c.hashRing != nil && c.hash != nil
+//
+//@ func (hash).Hash
+//@   trusted
+//@   pure
+//@ func (hash).GetHashType
+//@   trusted
+//@   pure
+//
+// weight: the number of ring rounds of an endpoint: the configured replicates, or its static weight when
+// weighting is enabled; a positive value is divided by four (four points per md5) but never drops to zero.
+//@ func (*ConsistentHash).weight
+//@   requires c != nil
+//@   pure
+//@   ensures [C13,C14] (c.enableWeight ? w : c.replicates) > 0 ==> result == max(1, (c.enableWeight ? w : c.replicates) / 4)
+//@   ensures [C13,C14] (c.enableWeight ? w : c.replicates) <= 0 ==> result == (c.enableWeight ? w : c.replicates)
+//@   safety [C13]
+//
+//@ func (*ConsistentHash).FindInt32
+//@   requires chInv(c)
+//@   pure
+//@   ensures [C13] (len(c.sortedKeys) == 0) == !result1
+//@   safety [C13]
+//
+//@ func (*ConsistentHash).Find
+//@   requires chInv(c)
+//@   pure
+//@   ensures [C13] (len(c.sortedKeys) == 0) == !result1
+//@   safety [C13]
+//
+//@ func (*ConsistentHash).Select
+//@   requires chInv(c) && msg != nil
+//@   pure
+//@   ensures [C13] (len(c.sortedKeys) == 0) == (err != nil)
+//@   safety [C13]
+//
+//@ func (*ConsistentHash).sort
+//@   requires c != nil
+//@   modifies elems(c.sortedKeys)
+//@   ensures [C13] hdr(c.sortedKeys) == old(hdr(c.sortedKeys))
+//@   safety [C13]
+//
+//@ func (*ConsistentHash).addLocked
+//@   requires chInv(c) && (cap(c.sortedKeys) == 0 || allocated(c.sortedKeys))
+//@   modifies c.sortedKeys, elems(c.sortedKeys), mapcells(c.hashRing), mapcells(c.mapValues)
+//@   allocates
+//@   ensures [C13] chInv(c) && (hdr(c.sortedKeys) == old(hdr(c.sortedKeys)) || (objof(c.sortedKeys) == old(objof(c.sortedKeys)) && old(cap(c.sortedKeys)) > 0) || fresh(c.sortedKeys))
+//@   loop 0 invariant chInv(c) && (hdr(c.sortedKeys) == old(hdr(c.sortedKeys)) || (objof(c.sortedKeys) == old(objof(c.sortedKeys)) && old(cap(c.sortedKeys)) > 0) || fresh(c.sortedKeys)) && (cap(c.sortedKeys) == 0 || allocated(c.sortedKeys))
+//@   loop 1 invariant chInv(c) && (hdr(c.sortedKeys) == old(hdr(c.sortedKeys)) || (objof(c.sortedKeys) == old(objof(c.sortedKeys)) && old(cap(c.sortedKeys)) > 0) || fresh(c.sortedKeys)) && (cap(c.sortedKeys) == 0 || allocated(c.sortedKeys))
+//@   loop 0 invariant objof(c.sortedKeys) == objof(atentry(0, c.sortedKeys)) || loopfresh(0, c.sortedKeys)
+//@   loop 1 invariant objof(c.sortedKeys) == objof(atentry(1, c.sortedKeys)) || loopfresh(1, c.sortedKeys)
+//@   loop 0 modifies c.sortedKeys, elems(c.sortedKeys), mapcells(c.hashRing)
+//@   loop 1 modifies c.sortedKeys, elems(c.sortedKeys), mapcells(c.hashRing)
+//@   safety [C13]
+//
+//@ func (*ConsistentHash).Add
+//@   requires chInv(c) && (cap(c.sortedKeys) == 0 || allocated(c.sortedKeys))
+//@   modifies c.sortedKeys, elems(c.sortedKeys), mapcells(c.hashRing), mapcells(c.mapValues)
+//@   allocates
+//@   ensures [C13] chInv(c)
+//@   safety [C13]
+//
+//@ func (*ConsistentHash).reBuildHashRingLocked
+//@   requires chInv(c)
+//@   modifies c.sortedKeys
+//@   allocates
+//@   ensures [C13] chInv(c) && (cap(c.sortedKeys) == 0 || fresh(c.sortedKeys))
+//@   loop 0 invariant chInv(c) && (cap(c.sortedKeys) == 0 || fresh(c.sortedKeys)) && (objof(c.sortedKeys) == objof(atentry(0, c.sortedKeys)) || loopfresh(0, c.sortedKeys))
+//@   loop 0 modifies c.sortedKeys, elems(c.sortedKeys)
+//@   safety [C13]
+//
+//@ func (*ConsistentHash).Remove
+//@   requires chInv(c)
+//@   modifies c.sortedKeys, mapcells(c.hashRing), mapcells(c.mapValues)
+//@   allocates
+//@   ensures [C13] chInv(c)
+//@   loop 0 invariant chInv(c)
+//@   loop 1 invariant chInv(c)
+//@   loop 0 modifies mapcells(c.hashRing)
+//@   loop 1 modifies mapcells(c.hashRing)
+//@   safety [C13]
+//
+//@ func (*ConsistentHash).Refresh
+//@   requires c != nil && c.hash != nil
+//@   modifies c.mapValues, c.hashRing, c.sortedKeys
+//@   allocates
+//@   ensures [C13] chInv(c) && (objof(c.sortedKeys) == 0 || fresh(c.sortedKeys))
+//@   loop 0 invariant chInv(c) && fresh(c.mapValues) && fresh(c.hashRing) && (objof(c.sortedKeys) == 0 || loopfresh(0, c.sortedKeys)) && allocated(c.sortedKeys)
+//@   loop 0 modifies c.sortedKeys, mapcells(c.hashRing), mapcells(c.mapValues)
+//@   safety [C13]
+//
+//@ func New
+//@   allocates
+//@   ensures [C13] chInv(result) && fresh(result) && len(result.sortedKeys) == 0 && result.enableWeight == enableWeight
+//@   safety [C13]
